@@ -467,12 +467,9 @@ pub fn judge_cli(c: &CliCase, exp: &Expected, r: &RunResult) -> Option<Fail> {
             });
         }
     }
-    // nothing but the expected result files (temporary chunk files must be gone)
-    for name in r.files.keys() {
-        if !exp.files.contains_key(name) {
-            return fail("spec", "KT.no_temp_left", format!("unexpected file '{}' left in the output location", name), String::new());
-        }
-    }
+    // files other than the result files (e.g. left-over temporary chunk files) are C07's business
+    // ("no temporary chunk file survives a merge"), checked there at library level; they are not part of
+    // C15 / C16 / C17 and are not judged here
     None
 }
 
